@@ -241,8 +241,10 @@ pub fn cfg_strategy(p: &Profile) -> BoxedStrategy<Cfg> {
         pct(40),
         pct(50),
         pct(15),
+        pct(50),
+        pct(40),
     )
-        .prop_map(move |((pool, objects, gates, streams), q, unlock_points, (sp, spv), (po, pov), root_holds, double_wake, gate_keep_all, stream_always_register, unwinding_drops)| Cfg {
+        .prop_map(move |((pool, objects, gates, streams), q, unlock_points, (sp, spv), (po, pov), root_holds, double_wake, gate_keep_all, stream_always_register, unwinding_drops, consumer_probe_polls, chained_streams)| Cfg {
             pool,
             objects,
             gates,
@@ -258,6 +260,8 @@ pub fn cfg_strategy(p: &Profile) -> BoxedStrategy<Cfg> {
             keep_going_after_early_destroy: keep_going,
             despawn_without_quiescence: false,
             unwinding_drops,
+            consumer_probe_polls,
+            chained_streams,
         })
         .boxed()
 }
